@@ -8,6 +8,8 @@ block.tlb (encoder with both `Either` choices free, decoder `decodeMessage`).  C
 `Total` = every cell with at most 1023 bits and 4 refs exists (no depth overflow).
 -/
 import TonVerif.Proofs.Wrappers
+import TonVerif.Proofs.SrcArith2
+import TonVerif.Generated.MsgLayout
 
 namespace TonVerif.Properties.C15
 open TonVerif TonVerif.Model TonVerif.Spec.Tlb TonVerif.Proofs.Message TonVerif.Proofs.MsgBits
@@ -633,5 +635,73 @@ example : ∃ c, Message.serialize tops m1 = some c ∧ decodeMessageStrict tops
 
 /-- its header has exactly the maximal 1007 bits -/
 example : Enc.nbits (encInfo m1.info) = 1007 := by decide +kernel
+
+/-! ## Source-regenerated layout decisions (`Generated/MsgLayout.lean`: re-translated from tlb/transaction.py on every run)
+
+`Generated.msgInitInline ab ar ib ir bb br` is the statement sequence `bits_left = …; refs_left = …; body_fits = …` of
+`MessageAny.serialize` followed by the test of the `if` that stores the init inline (`bits_left >= 0 and body_fits`, fix F17), as a
+function of `builder.available_bits/refs` (Python ints), the bit/ref counts of the init cell and of the body;
+`Generated.msgBodyInline ab ar bb br` is the test of the `if` that stores the body inline. -/
+section Src
+open TonVerif.Proofs.SrcArith2 TonVerif.Model.Message TonVerif.Model.BOp
+set_option linter.unusedSimpArgs false
+
+/-- both decisions, for ALL integer budgets and ALL sizes: the init goes inline iff its bits (plus the two Either bits) fit and the body
+still has a place behind it — a free reference, or no reference needed and the body's bits fit the rest; the body goes inline iff
+its bits fit the remaining bits minus the Either bit and its references fit the remaining references. -/
+theorem c15_src_layout_tests (ab ar : Int) (ib ir bb br : Nat) :
+    (Generated.msgInitInline_sideOk ab ar ib ir bb br ∧ Generated.msgBodyInline_sideOk ab ar bb br) ∧
+    Generated.msgInitInline ab ar ib ir bb br =
+      (decide (ab - 2 - (ib : Int) ≥ 0) &&
+        (decide (ar - (ir : Int) ≥ 1) || (decide (ar - (ir : Int) = 0) && decide (br = 0) && decide ((bb : Int) ≤ ab - 2 - (ib : Int))))) ∧
+    Generated.msgBodyInline ab ar bb br = (decide ((bb : Int) ≤ ab - 1) && decide ((br : Int) ≤ ar)) := by
+  refine ⟨⟨by simp only [Generated.msgInitInline_sideOk] <;> src_prop, by simp only [Generated.msgBodyInline_sideOk] <;> src_prop⟩, ?_, ?_⟩
+  · simp only [Generated.msgInitInline] <;> src_bool
+  · simp only [Generated.msgBodyInline] <;> src_bool
+
+/-- the init part and the body part of `MessageAny.serialize` in the hand model (what `c15_never_overflows`, `c15_serialize_spec`,
+`c15_round_trip` … are proved about) take the inline / reference branch by exactly the regenerated decisions, evaluated on
+`available_bits = 1023 - used bits` and `available_refs = 4 - used refs` of the builder at that point. -/
+theorem c15_src_model_layout (ops : CellOps R) (s : StateInit R) (body : Chunk R) (b : Builder R) :
+    initB ops (some s) body b =
+      (let r := storeBit true b
+       if !r.2 then some r else
+       match cellOf ops (stateInitB s) with
+       | none => none
+       | some ic =>
+         if Generated.msgInitInline (1023 - (r.1.bits.length : Int)) (4 - (r.1.refs.length : Int)) (ops.view ic).1.length
+              (ops.view ic).2.length body.1.length body.2.length
+         then some ((storeBit false ⊳ storeCell (ops.view ic).1 (ops.view ic).2) r.1)
+         else some ((storeBit true ⊳ storeRef ic) r.1)) ∧
+    bodyB ops body b =
+      (if Generated.msgBodyInline (1023 - (b.bits.length : Int)) (4 - (b.refs.length : Int)) body.1.length body.2.length
+       then some ((storeBit false ⊳ storeCell body.1 body.2) b)
+       else match ops.make body.1 body.2 with
+         | none => none
+         | some bc => some ((storeBit true ⊳ storeRef bc) b)) := by
+  have hI := fun ab ar ib ir bb br => (c15_src_layout_tests ab ar ib ir bb br).2.1
+  have hB := fun ab ar bb br => (c15_src_layout_tests ab ar 0 0 bb br).2.2
+  constructor
+  · have hE : body.2.isEmpty = decide (body.2.length = 0) := by cases body.2 <;> simp
+    simp only [initB, hI, hE]
+    split
+    · rfl
+    · cases cellOf ops (stateInitB s) with
+      | none => rfl
+      | some ic => simp only [Bool.and_assoc, ge_iff_le]
+  · have : (decide ((body.2.length : Int) ≤ 4 - (b.refs.length : Int))) = decide (body.2.length + b.refs.length ≤ 4) := by
+      simp only [decide_eq_decide]; omega
+    simp only [bodyB, hB, this]
+    split <;> rfl
+
+/-- concrete decisions at the F17 boundary: with 0 references left behind an inline init a body holding a reference forces the init into
+a reference; with one reference left it stays inline; a body of exactly `available_bits - 1` bits is inline, one more is not. -/
+example : Generated.msgInitInline 500 3 100 3 0 1 = false ∧ Generated.msgInitInline 500 4 100 3 0 1 = true ∧
+    Generated.msgInitInline 500 3 100 3 398 0 = true ∧ Generated.msgInitInline 500 3 100 3 399 0 = false ∧
+    Generated.msgInitInline 101 4 100 0 0 0 = false ∧
+    Generated.msgBodyInline 500 1 499 1 = true ∧ Generated.msgBodyInline 500 1 500 1 = false ∧ Generated.msgBodyInline 500 1 0 2 = false := by
+  decide
+
+end Src
 
 end TonVerif.Properties.C15
